@@ -92,6 +92,7 @@ class Lemma:
     note: str = ""
     proves_fact: str | None = None
     file: str | None = None
+    exc_ok: str | None = None      # a harness step may raise only when this holds (default: never)
 
 
 def lemma(**kw):
